@@ -4,3 +4,4 @@
 (t "remove_unused_vars(all)" gf "subroutine kernel(a, n)\n  implicit none\n  integer, intent(in) :: n\n  integer, intent(inout) :: a(n)\n  integer :: i1\n  do i1 = 1, n\n    a(i1) = 0\n  end do\nend subroutine kernel\n")
 (t "resolve_vector_notation" gf "subroutine kernel(a)\n  implicit none\n  integer, intent(inout) :: a(3)\n  a(:2) = 0\nend subroutine kernel\n")
 (t "normalize_array_shape_and_access" gf "subroutine kernel(b)\n  implicit none\n  real, intent(inout) :: b(-2:-1)\n  b(-1:-2:-1) = b(-2:-1)\nend subroutine kernel\n")
+(t "merge_associates" gf "subroutine sub1(k)\n  implicit none\n  integer, intent(inout) :: k\n  integer, parameter :: c1 = 2\n  associate (z1 => c1)\n    k = z1\n  end associate\nend subroutine sub1\n")
